@@ -28,6 +28,6 @@ def entries(prop=None, status=None):
 def is_open(kfid):
     """True when a finding with this id is listed as open (its input class is then excluded)."""
     for e in load():
-        if e["id"] == kfid and e["status"] == "open":
+        if (e["id"] == kfid or e.get("root") == kfid) and e["status"] == "open":
             return True
     return False
